@@ -9,6 +9,7 @@ import (
 	"strings"
 	"time"
 
+	"github.com/AdguardTeam/AdGuardDNS/internal/access"
 	"github.com/AdguardTeam/AdGuardDNS/internal/agd"
 	"github.com/AdguardTeam/AdGuardDNS/internal/agdtest"
 	"github.com/AdguardTeam/AdGuardDNS/internal/dnsmsg"
@@ -136,5 +137,103 @@ func VerifC09LargeResponses() {
 		}
 	}
 	verifAssert("another-subnet-is-unaffected", ask([4]byte{203, 0, 113, 9}))
+	verifReach("done")
+}
+
+
+type verifProfFinder09 struct{ prof *agd.Profile }
+
+func (f verifProfFinder09) Find(_ context.Context, _ *dns.Msg, raddr netip.AddrPort, _ netip.AddrPort) agd.DeviceResult {
+	// the profile's device sits at .7; every other address has no profile
+	if raddr.Addr() == netip.AddrFrom4([4]byte{198, 51, 100, 7}) {
+		return &agd.DeviceResultOK{Profile: f.prof, Device: &agd.Device{ID: "dev12345"}}
+	}
+	return nil
+}
+
+// VerifC09ProfileLimit: a profile's own limit applies instead of the global one for
+// its client: the profile's limiter counts that client's queries and its large
+// responses, and the global bucket of the client's subnet stays untouched.
+//
+//verif:harness name=H09f-profile-limit tier=quick,thorough bounds="profile with a custom limit of 3 or 6 per second covering the client; global limit 1 per hour; the profile's client gets a response of about 60 or 450 bytes (size estimate 100), then asks twice more; then a neighbour without a profile in the same /24 asks once" reach=done,profile-dropped,profile-passed maxpaths=20000
+//verif:assume access manager, device finder, GeoIP and the next handler are stubs; clock fixed
+func VerifC09ProfileLimit() {
+	rps := []uint32{3, 6}[verifChoice(2)]
+	txt := []int{10, 400}[verifChoice(2)]
+	global := ratelimit.NewBackoff(&ratelimit.BackoffConfig{
+		Allowlist:            ratelimit.NewDynamicAllowlist(nil, nil),
+		Period:               time.Hour,
+		Duration:             time.Hour,
+		Count:                1000,
+		ResponseSizeEstimate: 100,
+		IPv4Count:            1,
+		IPv4Interval:         time.Hour,
+		IPv4SubnetKeyLen:     24,
+		IPv6Count:            1,
+		IPv6Interval:         time.Hour,
+		IPv6SubnetKeyLen:     48,
+	})
+	prof := &agd.Profile{
+		ID:                  "prof1234",
+		Access:              access.EmptyProfile{},
+		BlockingMode:        &dnsmsg.BlockingModeNullIP{},
+		FilteredResponseTTL: 10 * time.Second,
+		Ratelimiter: agd.NewDefaultRatelimiter(&agd.RatelimitConfig{
+			ClientSubnets: []netip.Prefix{netip.MustParsePrefix("198.51.100.0/24")},
+			RPS:           rps,
+			Enabled:       true,
+		}, 100),
+	}
+	msgs, err := dnsmsg.NewConstructor(&dnsmsg.ConstructorConfig{
+		Cloner:              agdtest.NewCloner(),
+		BlockingMode:        &dnsmsg.BlockingModeNullIP{},
+		StructuredErrors:    agdtest.NewSDEConfig(false),
+		FilteredResponseTTL: 10 * time.Second,
+	})
+	verifAssume(err == nil)
+	mw := New(&Config{
+		Logger:           slogutil.NewDiscardLogger(),
+		Messages:         msgs,
+		FilteringGroup:   &agd.FilteringGroup{},
+		ServerGroup:      &agd.ServerGroup{},
+		Server:           &agd.Server{Name: "s", Protocol: agd.ProtoDNS},
+		StructuredErrors: agdtest.NewSDEConfig(false),
+		AccessManager:    verifAllowAll09{},
+		DeviceFinder:     verifProfFinder09{prof: prof},
+		ErrColl:          agdtest.NewErrorCollector(),
+		GeoIP:            verifGeo09{},
+		Metrics:          EmptyMetrics{},
+		Limiter:          global,
+		Protocols:        []agd.Protocol{agd.ProtoDNS},
+	})
+	verifSetClock(1 << 40)
+	next := &verifBigNext09{txt: txt}
+	h := mw.Wrap(next)
+	ask := func(addr [4]byte) bool {
+		rw := &verifRW09{addr: addr}
+		req := &dns.Msg{}
+		req.SetQuestion("example.org.", dns.TypeTXT)
+		serveErr := h.ServeDNS(context.Background(), rw, req)
+		verifAssert("no-error", serveErr == nil)
+		return rw.writes == 1
+	}
+	client := [4]byte{198, 51, 100, 7}
+	verifAssert("first-query-answered", ask(client))
+	respLen := 12 + 17 + (2 + 10 + 1 + txt)
+	events := 1 + respLen/100
+	for k := 0; k < 2; k++ {
+		want := events < int(rps)
+		got := ask(client)
+		verifAssert("profile-client-dropped-exactly-when-its-events-reach-the-profile's-limit", got == want)
+		events++
+		if got {
+			events += respLen / 100
+			verifReach("profile-passed")
+		} else {
+			verifReach("profile-dropped")
+		}
+	}
+	// the global bucket of the subnet has seen nothing of the profile's client
+	verifAssert("global-bucket-untouched-by-the-profile's-client", ask([4]byte{198, 51, 100, 99}))
 	verifReach("done")
 }
